@@ -32,7 +32,7 @@ class Check(E3Check):
             "#successes <= v + #signals begun; non-zero only after the full timeout (S3); after quiescence exactly v + signals - successes permits are obtainable by "
             "polling; forever-waiters return (stuck witness). Non-trivial: >= 1 wait timed out and >= 1 signal began within 100us of a time-out expiry; distinct = "
             "distinct program texts.")
-    assumptions = ["no clock is stepped during a run", "one-sided stamp logic (DESIGN S2/S3)"]
+    assumptions = ["a timed wait counts as early only if it is short on CLOCK_MONOTONIC, CLOCK_REALTIME and CLOCK_BOOTTIME, measured on one CPU (DESIGN S3)", "one-sided stamp logic (DESIGN S2/S3)"]
     G = Grammar()
 
     def recipe_strategy(self, tier):
